@@ -506,6 +506,113 @@ def perms_for(rng, n, tier):
     return out
 
 
+# ---- order stratum: repeated references, chains, diamonds, in ALL orders ------------------------------------------
+# structure templates: (definition, references); 'B' = some built-in unit, '!' prefix = new base unit
+ORDER_TEMPLATES = [
+    ('area', [('side', ['B']), ('depth', ['B']), ('area', ['side', 'side', 'depth'])]),
+    ('xxy-dep', [('x', ['B']), ('y', ['x', 'B']), ('d', ['x', 'x', 'y'])]),
+    ('xyx', [('x', ['B']), ('y', ['B', 'B']), ('d', ['x', 'y', 'x']), ('e', ['d', 'y'])]),
+    ('xxxy', [('x', ['B']), ('y', ['B']), ('d', ['x', 'x', 'x', 'y']), ('e', ['d', 'y', 'y'])]),
+    ('two-doubles', [('x', ['B']), ('y', ['B']), ('z', ['y']), ('d', ['x', 'z', 'x']), ('e', ['d', 'd', 'z'])]),
+    ('xyxy', [('x', ['B']), ('y', ['B']), ('d', ['x', 'y', 'x', 'y']), ('e', ['y', 'd', 'y'])]),
+    ('chain3', [('a', ['B']), ('b', ['a']), ('c', ['b'])]),
+    ('chain4', [('a', ['B']), ('b', ['a']), ('c', ['b', 'B']), ('d', ['c'])]),
+    ('chain5', [('a', ['B']), ('b', ['a']), ('c', ['b']), ('d', ['c']), ('e', ['d'])]),
+    ('chain5-doubles', [('a', ['B']), ('b', ['a', 'a']), ('c', ['b', 'a']), ('d', ['c', 'c', 'b']), ('e', ['d', 'a'])]),
+    ('diamond', [('a', ['B']), ('b', ['a']), ('c', ['a']), ('d', ['b', 'c'])]),
+    ('diamond-tail', [('a', ['B']), ('b', ['a']), ('c', ['a', 'B']), ('d', ['b', 'c']), ('e', ['d', 'a'])]),
+    ('double-diamond', [('a', ['B']), ('b', ['a', 'a']), ('c', ['a', 'B']), ('d', ['b', 'c', 'b']), ('e', ['d', 'c', 'c'])]),
+    ('base-doubles', [('!u', []), ('x', ['!u', '!u', 'B']), ('y', ['x', 'B']), ('d', ['x', 'x', 'y', '!u'])]),
+    ('wide', [('a', ['B']), ('b', ['B']), ('c', ['B']), ('d', ['a', 'b', 'a', 'c']), ('e', ['d', 'c', 'c', 'b'])]),
+    ('chain6', [('a', ['B']), ('b', ['a']), ('c', ['b']), ('d', ['c']), ('e', ['d']), ('f', ['e', 'a', 'a'])]),
+    ('chain7-doubles', [('a', ['B']), ('b', ['a', 'a']), ('c', ['b']), ('d', ['c', 'b', 'c']), ('e', ['d']), ('f', ['e', 'e', 'a']),
+                        ('g', ['f', 'b'])]),
+]
+
+
+def order_perms(rng, n):
+    """every order for up to 5 definitions; beyond that a deterministic subset (identity, reversed, all rotations of
+    both, adjacent transpositions of both) plus random orders"""
+    ident = list(range(n))
+    if n <= 5:
+        return [list(p) for p in itertools.permutations(ident)]
+    out = []
+    for base in (ident, ident[::-1]):
+        for r in range(n):
+            out.append(base[r:] + base[:r])
+        for i in range(n - 1):
+            q = base[:]
+            q[i], q[i + 1] = q[i + 1], q[i]
+            out.append(q)
+    for _ in range(40):
+        q = ident[:]
+        rng.shuffle(q)
+        out.append(q)
+    seen = []
+    for q in out:
+        if q not in seen:
+            seen.append(q)
+    return seen
+
+
+def simple_child(rng, ref):
+    """small attributes so that long products of repeated references stay well inside floating point"""
+    c = mk_child(ref)
+    r = rng.random()
+    if r < 0.35:
+        c['prefix'] = rng.choice(['milli', 'kilo', 'centi', 'deci', 'hecto', 'micro', '-1', '2', '3', '-2'])
+    if rng.random() < 0.4:
+        c['exponent'] = rng.choice(['-1', '2', '-2', '0.5', '-0.5', '1.5', '1.0'])
+    if rng.random() < 0.3:
+        c['multiplier'] = rng.choice(['2', '3', '0.5', '2.5', '60', '0.01', '1.1', '7'])
+    return c
+
+
+def instantiate(rng, template):
+    for attempt in range(50):
+        names = rng.sample([n for n in WORD_NAMES if '{SID}' not in n], len(template))
+        ren = {t[0]: n for t, n in zip(template, names)}
+        defs = []
+        for tname, refs in template:
+            if tname.startswith('!'):
+                defs.append(mk_def(ren[tname], base='yes'))
+            else:
+                defs.append(mk_def(ren[tname], [simple_child(rng, rng.choice(BUILTINS) if r == 'B' else ren[r])
+                                                for r in refs]))
+        if magnitude_ok(defs):
+            return defs
+    raise RuntimeError('order stratum: no instance of acceptable magnitude')
+
+
+def dense_family(rng, k):
+    """k definitions, each over 1-4 references drawn WITH repetition mostly from the earlier user definitions"""
+    tmpl = []
+    for i in range(k):
+        prev = [t[0] for t in tmpl]
+        if not prev:
+            refs = ['B']
+        else:
+            refs = [rng.choice(prev) if rng.random() < 0.8 else 'B' for _ in range(rng.choice([1, 2, 3, 3, 4]))]
+            if rng.random() < 0.5:
+                refs.append(rng.choice(refs))       # a repeated reference
+        tmpl.append(('n%d' % i, refs))
+    return tmpl
+
+
+def order_cases(seed, tier):
+    rng = vlib.random.Random(seed * 17 + 9)
+    out = []
+    reps = 1 if tier == 'quick' else 6
+    for _ in range(reps):
+        for kind, tmpl in ORDER_TEMPLATES:
+            out.append({'kind': 'order-' + kind, 'defs': instantiate(rng, tmpl), 'perms': order_perms(rng, len(tmpl))})
+    for i in range(24 if tier == 'quick' else 400):
+        k = rng.choice([3, 4, 4, 5, 5, 5]) if i % 8 else rng.choice([6, 7])
+        tmpl = dense_family(rng, k)
+        out.append({'kind': 'order-dense', 'defs': instantiate(rng, tmpl), 'perms': order_perms(rng, k)})
+    return out
+
+
 def magnitude_ok(defs):
     """Keep the family inside binary floating point: pint multiplies the own scale factor of every definition in the
     reference tree, raised to its total exponent, term by term (registry._get_root_units_recurse), so intermediate
@@ -604,6 +711,12 @@ def enumerated_cases(seed):
                 'perms': [[0, 1], [1, 0]]})
     for b in BUILTINS:
         out.append({'kind': 'builtin', 'defs': [mk_def('b_' + b, [mk_child(b, 'milli', '2')])], 'perms': [[0]]})
+    # every built-in as one factor among several, with a prefix and no multiplier (incl. dimensionless, radian)
+    for i, b in enumerate(BUILTINS):
+        out.append({'kind': 'builtin-factor',
+                    'defs': [mk_def('c_' + b, [mk_child('mole'), mk_child(b, ['micro', '-6', 'kilo', '2'][i % 4],
+                                                                         [None, '2', '-1'][i % 3]),
+                                               mk_child('litre', exponent='-1')])], 'perms': [[0]]})
     for o in ZERO_OFFSETS_INT + ZERO_OFFSETS_OTHER + NONZERO_OFFSETS:
         out.append({'kind': 'offset', 'defs': [mk_def('o', [mk_child('kelvin', offset=o)])], 'perms': [[0]]})
     for o in ZERO_OFFSETS_INT + ZERO_OFFSETS_OTHER:
@@ -802,7 +915,9 @@ def run(ctx):
                 '+-1 +-2 +-3 +-1/2 3/2, multipliers with prime factors < 100, new base units, names of many shapes) loaded '
                 'in 6 (quick) / all or 24 (thorough) orders; complete enumeration of prefixes, exponents, multipliers, '
                 'built-ins, offset spellings, base_units values; malformed families (cycle, dangling, duplicate, built-in '
-                'override, offset); digit-led references; non-trivial = more than one definition or a table entry')
+                'override, offset); digit-led references; order stratum: repeated references to one user unit inside a '
+                'definition, chains of depth 3-7, diamonds, dense DAGs, in ALL orders up to 5 definitions (rotations, '
+                'transpositions, reversed + random beyond); non-trivial = more than one definition or a table entry')
     ctx.trusted += ['tools/translate_prefixes.py (parser.py UNIT_PREFIXES -> Gen/Prefixes_gen.v)',
                     'tools/translate_builtins.py (units.py sets, data/cellml_units.txt -> Gen/Builtins_gen.v)',
                     'pint arithmetic is binary floating point; the model and the oracle are exact (tolerance 1e-9)',
@@ -811,7 +926,7 @@ def run(ctx):
                     'references to names beginning with a digit that are not all digits are outside the model (F2)']
     tables_check(ctx)
     cases = load_corpus() + enumerated_cases(ctx.seed) + malformed_cases(ctx.seed, ctx.tier) + f2_cases(ctx.seed, ctx.tier) \
-        + lexical_cases(ctx.seed) + [gen_family(ctx.seed * 100000 + i, ctx.tier) for i in range(n)]
+        + lexical_cases(ctx.seed) + order_cases(ctx.seed, ctx.tier) + [gen_family(ctx.seed * 100000 + i, ctx.tier) for i in range(n)]
     try:
         impls = vlib.pmap(work, cases)
         evaluate(ctx, cases, impls)
